@@ -84,6 +84,38 @@ def regen(ctx):
     translate_c15.regen_redirect()
 
 
+_ORACLE_ONLY = [False]
+
+
+def correspond(ctx, unit, imports, model, ctype, cases, shard):
+    """ctx.correspond, but a shard whose coqc was KILLED or timed out (machine under memory pressure: rc 137 /
+    124 / -9) is evaluated again, in smaller pieces, before it counts as a broken obligation.  A Coq error is
+    never retried."""
+    if _ORACLE_ONLY[0]:
+        return
+    import re
+    n0 = len(ctx.broken)
+    ctx.correspond(unit, imports, model, ctype, cases, shard=shard)
+    for attempt in range(3):
+        killed = [b for b in ctx.broken[n0:] if b[0] == "model-evaluation:" + unit and re.search(r"rc=(137|124|-9|143)\b", b[1])]
+        if not killed:
+            break
+        todo = []
+        for bk in killed:
+            ctx.broken.remove(bk)
+            m = re.search(r"cases_.*_(\d+)\.v", bk[1])
+            k = int(m.group(1))
+            todo += cases[k:k + shard]
+            ctx.evaluations -= 0
+        ctx.notes.append("unit %s: %d shard(s) killed/timed out by the machine, evaluated again (attempt %d)" % (unit, len(killed), attempt + 1))
+        import time
+        time.sleep(5 * (attempt + 1))
+        cases, shard = todo, max(20, shard // 3)
+        n0 = len(ctx.broken)
+        ctx.correspond(unit + "_retry%d" % (attempt + 1), imports, model, ctype, cases, shard=shard)
+        unit = unit + "_retry%d" % (attempt + 1)
+
+
 def _exn(e):
     return Exn(type(e).__name__)
 
@@ -221,18 +253,18 @@ def unit_sign_string(ctx):
         cases_p.append(dict(id=len(cases_p), impl=impl, show=dict(typ=typ, alg=alg, signer=signer is not None),
                             coq="(%s, %s, %s, %s, %s)" % (cstr(typ), cstr(b(m)), cstr("rs"), cstr(alg), cbool(signer is not None))))
     sign_state = "(all_keys actual (Some 1))"
-    ctx.correspond("sign_string", "Model.Redirect",
-                   "fun c => match c with (typ, m, rs, alg) => match http_redirect_message actual %s typ m rs alg (Some alg) with "
+    correspond(ctx, "sign_string", "Model.Redirect",
+                   "fun c => match c with (typ, m, rs, alg) => match http_redirect_message actual %s typ m rs alg (Some (alg, Some 1)) with "
                    "Ok {| q_sig := Some (SigOf s) |} => VS (sg_msg s) | Ok _ => VNone | Err e => VE e end end" % sign_state,
                    "(str * str * str * str)", cases_s, shard=200)
     n4 = len(cases_s)
-    ctx.correspond("sign_params", "Model.Redirect",
+    correspond(ctx, "sign_params", "Model.Redirect",
                    "fun c => match c with (typ, m, rs, alg) => show_result (fun q => show_params (q_params q)) "
-                   "(http_redirect_message actual %s typ m rs alg (Some alg)) end" % sign_state,
+                   "(http_redirect_message actual %s typ m rs alg (Some (alg, Some 1))) end" % sign_state,
                    "(str * str * str * str)", cases_p[:n4], shard=200)
-    ctx.correspond("sign_errors", "Model.Redirect",
+    correspond(ctx, "sign_errors", "Model.Redirect",
                    "fun c => match c with (typ, m, rs, alg, sg) => show_result (fun q => show_params (q_params q)) "
-                   "(http_redirect_message actual %s typ m rs alg (if (sg : bool) then Some alg else None)) end" % sign_state,
+                   "(http_redirect_message actual %s typ m rs alg (if (sg : bool) then Some (alg, Some 1) else None)) end" % sign_state,
                    "(str * str * str * str * bool)", cases_p[n4:], shard=200)
 
 
@@ -276,7 +308,7 @@ def unit_verify_string(ctx):
                 ps = [(k, v) for k, v in q.items() if k != "Signature"]
                 cases.append(dict(id=len(cases), coq=cpairs(ps), impl=impl, show=q))
                 ctx.nontriv(("verify_string", tuple(q.items())))
-    ctx.correspond("verify_string", "Model.Redirect",
+    correspond(ctx, "verify_string", "Model.Redirect",
                    "fun ps => match verify_order actual ps with Some o => VS (verify_string actual o ps) | None => VE Unsupported end",
                    "(list (str * str))", cases, shard=200)
 
@@ -427,7 +459,7 @@ def unit_verify_sweep(ctx):
                     ctx.oracle_fail("mutation-accepted:%s:%s" % (short, typ), "mutation %s of a signed %s still verifies (cert %s, sigkey %s, verifier %s)" % (mname, typ, cname, skname, vname), rep)
     ctx.sample(dict(unit="verify_sweep", algorithms=algs, relay_states=relays, signed_urls=len(signed), cases=len(cases),
                     mutations=sorted(set(c["show"]["mutation"].split(":")[0] for c in cases))))
-    ctx.correspond("verify_sweep", "Model.Redirect",
+    correspond(ctx, "verify_sweep", "Model.Redirect",
                    "fun c => match c with (e, q, cert, sk) => show_verify (verify_redirect_signature actual (init_shared actual) e q cert sk) end",
                    "(option keyid * query * option keyid * option keyid)", cases, shard=250)
 
@@ -593,7 +625,7 @@ def unit_schedule(ctx):
     ctx.extra["schedule"] = dict(exhaustive_up_to_length=maxlen, exhaustive_traces=exhaustive_n, random_long_traces=len(traces) - exhaustive_n,
                                  alphabet="get_signer / sign-with-held-handle / apply_binding / verify x {sp, idp} x one algorithm (exhaustive part)")
     ctx.sample(dict(unit="schedule", trace=traces[exhaustive_n - 1], observed=cases[exhaustive_n - 1]["impl"]))
-    ctx.correspond("schedule", "Model.Redirect", "show_script actual", "(list sop)", cases, shard=150)
+    correspond(ctx, "schedule", "Model.Redirect", "show_script actual", "(list sop)", cases, shard=150)
 
 
 # ------------------------------------------------------------------ unit: real threads (thorough)
@@ -657,19 +689,20 @@ def run(ctx):
 
 
 def cex_search(ctx):
-    """something no longer checks: widen the implementation-level search (oracle only)"""
-    if ctx.oracle_failures:
+    """something no longer checks and the quick-size oracle found nothing: widen the implementation-level
+    search (oracle only, thorough sizes, real threads)"""
+    if ctx.oracle_failures and any(k not in __import__("core").known_keys("C15") for k, _, _ in ctx.oracle_failures):
         return
     saved_tier = ctx.tier
     ctx.tier = "thorough"
+    _ORACLE_ONLY[0] = True
     try:
-        before = len(ctx.disagreements)
         unit_verify_sweep(ctx)
         unit_schedule(ctx)
         unit_threads(ctx, rounds=50)
-        del ctx.disagreements[before:]
     finally:
         ctx.tier = saved_tier
+        _ORACLE_ONLY[0] = False
 
 
 def replay(ctx, payload):
